@@ -21,7 +21,13 @@ META = dict(
           "are those two postconditions and the postcondition of the operator-to-tensor conversion (C01) gives that both "
           "forms act identically on every operator, for every number of states and bath components. The two functions "
           "that apply the same actions inside the propagation loops, rdmpropagator._OTI and _TTI, are proved to add "
-          "(dt/ll) times exactly those two expressions to the accumulated term. Through that lemma "
+          "(dt/ll) times exactly those two expressions to the accumulated term. The spline integral behind the two Redfield "
+          "tensors is under contract in both places: _guts_Cmplx_Splines (time-independent) adds, for every pair (a,b), "
+          "the value at the LAST time index of the antiderivative of C(t) exp(-i w_ab t) times K[ms,a,b] to Lambda[ms,a,b] "
+          "and touches no other bath component; TDRedfieldRelaxationTensor._implementation stores at every time index t "
+          "the value of the same antiderivative at t times K - the same expression, so the time-dependent operators at "
+          "their last index are the time-independent ones, and they vanish at time zero (the antiderivative starts at "
+          "zero). Through that lemma "
           "the operator-form propagation step inherits the trace/Hermiticity results of C02. Not decided here: equality "
           "of whole propagated dynamics (same generator is shown, truncation not needed), the time-zero / last-index "
           "limits of the time-dependent tensor, the analytic pure-dephasing limit."),
@@ -110,6 +116,47 @@ def contracts(reg):
                   "forall((a, b), %s, rhoY[a,b] == old(rhoY)[a,b] + (dt/ll)*Sum(c, range(0, N), "
                   "Sum(d, range(0, N), RR[a,b,c,d]*rho1[c,d])))" % N2)]))
 
+    # ---- the spline integral: its final value (time-independent tensor) and its running value (time-dependent tensor) ---------------------
+    # spline_primitive(t, y) is the assumed contract of UnivariateSpline(t, y, s=0).antiderivative()(t): a deterministic
+    # function of the two arrays that vanishes at the first point.
+    INTEGRAND = "rc1[0:length]*numpy.exp(-1.0j*Om[a,b]*tm)"
+    PRIM = "(spline_primitive(tm, numpy.real(%s))[{t}] + 1.0j*spline_primitive(tm, numpy.imag(%s))[{t}])" % (INTEGRAND, INTEGRAND)
+
+    def setup_guts(S):
+        nb, na, nt, ln = S.int("Nb"), S.int("Na"), S.int("Nt"), S.int("length")
+        me = S.obj(RT + "RedfieldRelaxationTensor", label="self")
+        return dict(self=me, ms=S.int("ms"), Lm=S.array("Lm", (nb, na, na), "cx"), Km=S.array("Km", (nb, na, na), "real"),
+                    Na=na, Om=S.array("Om", (na, na), "real"), length=ln, rc1=S.array("rc1", (nt,), "cx"),
+                    tm=S.array("tm", (ln,), "real"), Nb=nb, Nt=nt)
+    reg.add(Contract(
+        RT + "RedfieldRelaxationTensor._guts_Cmplx_Splines", setup=setup_guts,
+        requires=["Na >= 0", "0 <= ms and ms < Nb", "1 <= length and length <= Nt"],
+        modifies=["Lm"],
+        ensures=[("final-value-of-the-spline-integral-times-K-added",
+                  "forall((a, b), (range(0, Na), range(0, Na)), Lm[ms,a,b] == old(Lm)[ms,a,b] + %s*Km[ms,a,b])"
+                  % PRIM.format(t="length - 1")),
+                 ("other-bath-components-untouched",
+                  "forall((m, a, b), (range(0, Nb), range(0, Na), range(0, Na)), implies(m != ms, Lm[m,a,b] == old(Lm)[m,a,b]))")]))
+
+    # time-dependent tensor: the running value of the same integral, at every time index (set-up, preconditions and the
+    # loop specification of the K-operator loop are those of C01; the Lambda loops are summarised automatically)
+    C01.contracts_td(reg)
+    base = reg.contracts[C01.TD + "TDRedfieldRelaxationTensor._implementation#operators"]
+    TINT = "sbi.CC.get_coft(m, m)[0:local_length]*numpy.exp(-1.0j*local_Om[a,b]*local_tm)"
+    TPRIM = "(spline_primitive(local_tm, numpy.real(%s))[t] + 1.0j*spline_primitive(local_tm, numpy.imag(%s))[t])" % (TINT, TINT)
+    ALL4 = "(range(0, self.Nt), range(0, Nb), range(0, Na), range(0, Na))"
+    reg.add(Contract(
+        C01.TD + "TDRedfieldRelaxationTensor._implementation#lambda-values", setup=base.setup,
+        requires=list(base.requires) + ["sbi.TimeAxis.length >= 1"], loops=base.loops,
+        ensures=[("running-value-of-the-spline-integral-times-K-at-every-time",
+                  "forall((t, m, a, b), %s, self.Lm[t,m,a,b] == %s*self.Km[m,a,b])" % (ALL4, TPRIM)),
+                 ("vanishes-at-time-zero",
+                  "forall((m, a, b), (range(0, Nb), range(0, Na), range(0, Na)), implies(self.Nt >= 1, self.Lm[0,m,a,b] == 0))"),
+                 ("transition-frequencies", "forall((a, b), (range(0, Na), range(0, Na)), local_Om[a,b] == local_hD[a] - local_hD[b])"),
+                 ("times-are-the-bath-time-axis-up-to-the-cut-off",
+                  "self.Nt == local_length and forall(t, range(0, local_length), local_tm[t] == sbi.TimeAxis.data[t])")],
+        expose_locals=["Om", "tm", "length", "hD"]))
+
 
 def lemma_forms_agree(ctx):
     """postconditions of the conversion (C01), of the operator-form apply and of the tensor-form apply are the hypotheses /
@@ -140,11 +187,18 @@ def lemma_forms_agree(ctx):
 def plan(ctx):
     p = Plan("C07")
     contracts(ctx.registry)
-    p.functions = [RT + "RedfieldRelaxationTensor.apply", SO + "SuperOperator.apply", RP + "_OTI", RP + "_TTI"]
+    p.functions = [RT + "RedfieldRelaxationTensor.apply", SO + "SuperOperator.apply", RP + "_OTI", RP + "_TTI",
+                   RT + "RedfieldRelaxationTensor._guts_Cmplx_Splines",
+                   C01.TD + "TDRedfieldRelaxationTensor._implementation#lambda-values"]
+    tt_, yy_ = z3.Consts("ax_t ax_y", z3.ArraySort(z3.IntSort(), z3.RealSort()))
+    prim_ = z3.Function("u_prim", z3.ArraySort(z3.IntSort(), z3.RealSort()), z3.ArraySort(z3.IntSort(), z3.RealSort()),
+                        z3.ArraySort(z3.IntSort(), z3.RealSort()))
+    p.extra_axioms = list(getattr(p, "extra_axioms", [])) + [
+        z3.ForAll([tt_, yy_], z3.Select(prim_(tt_, yy_), 0) == 0, patterns=[prim_(tt_, yy_)])]
     p.lemmas = [lemma_forms_agree]
     p.oracles = ["native/oracle_C07.py"]
-    p.not_decided = ["TDRedfieldRelaxationTensor.data[0] == 0 and data[-1] == static tensor (needs value-level contracts "
-                     "of the two reference implementations over the spline antiderivative)",
+    p.not_decided = ["TDRedfieldRelaxationTensor.data[0] == 0 and data[-1] == static tensor in four-index form: shown for the "
+                     "operator components Lambda_m(t) (the conversion to four-index form is the same function of them, C01)",
                      "uncoupled sites reproduce exp(-i w t - g(t)) up to the time-step error",
                      "equality of whole propagated trajectories (only the generator is shown equal)"]
     return p
